@@ -46,9 +46,17 @@ def explainA (ms : List Match) (cs : List CapEv) (inc : Option TSRange) : String
 def Match.key (m : Match) : Nat × List Cap := (m.pat, m.caps)
 def CapEv.key (e : CapEv) : Nat × Nat × Cap := (e.pat, e.k, e.cap)
 
-/-- Clause (b): the restricted stream is the filter of the unrestricted one. -/
-def judgeB (keep : Match → Bool) (u r : List Match) : Bool :=
-  decide ((u.filter keep).map Match.key = r.map Match.key)
+/-- Clause (b): the restricted stream is the filter of the unrestricted one.  `dontCare` marks
+matches on which the code's own two range predicates disagree (zero-width root exactly at the end
+of a containing range: `range_within` accepts it, `range_intersects` — which gates the descent —
+does not); they are ignored on both sides. -/
+def judgeB (keep : Match → Bool) (dontCare : Match → Bool) (u r : List Match) : Bool :=
+  decide (((u.filter fun m => keep m && !dontCare m).map Match.key) =
+    ((r.filter fun m => !dontCare m).map Match.key))
+
+def emptyAtEnd (con : TSRange) (m : Match) : Bool :=
+  m.root.start_byte == m.root.end_byte &&
+    (m.root.end_byte == con.end_byte || decide (m.root.end_point = con.end_point))
 
 /-- Clause (c): identical streams (ids included). -/
 def judgeCm (a b : List Match) : Bool := decide (a = b)
@@ -75,7 +83,8 @@ def idUnique (u : List CapEv) (id : Nat) : Bool :=
 
 /-- Clause (e): after removing the match of the event at `pos`, the stream up to `pos` is
 unchanged; every capture of the *other* matches is still reported; nothing new is reported; and
-when the id names a single match, the captures only that match would still have delivered are gone.
+when the id names a single match and no triple is reported twice (no twin states of a quantified
+pattern), the captures only that match would still have delivered are gone.
 (Compared as triples: match ids of later states may be renumbered after a removal.) -/
 def judgeE (u e : List CapEv) (pos : Nat) : Bool :=
   match u[pos]? with
@@ -89,7 +98,7 @@ def judgeE (u e : List CapEv) (pos : Nat) : Bool :=
     decide (e.take (pos + 1) = u.take (pos + 1)) &&
     subsetB others eLater &&
     subsetB eLater (u.map CapEv.triple) &&
-    (!idUnique u x.id ||
+    (!(idUnique u x.id && decide ((u.map CapEv.triple).Nodup)) ||
       own.all fun t => others.contains t || before.contains t || !eLater.contains t)
 
 /-! ## (f) predicates -/
